@@ -1,12 +1,16 @@
 import CarModel.Proofs.Crash
+import CarModel.Proofs.TornHeader
 import CarModel.Proofs.FactsTie
 /-
 C06 — Crash at any point of a writing session never resumes into corrupt state.
 Proved here: every crash point of the **open and put phases** of a session (any options, any
 history, CARv1 and CARv2), i.e. every image of the form
     prefix ++ payload(roots, acked) ++ (cut of the next section)
-and the guard facts about write order. Crash points of the **finalize phase** between the index
-write and a valid header are a recorded known finding (see `crash_safe_partial` note, DESIGN 6).
+and the guard facts about write order. **Finalize phase**: theorems (5)-(8) cover every byte offset of the
+final header write and the index write under an index padding; what is left without a safety theorem is
+exactly the window of the recorded known finding — the header's DataSize field has not reached the disk
+(`crash_before_datasize_on_disk` shows such an image is treated like the un-finalised file) AND the bytes
+after the payload (index padding = 0) happen to parse as sections (DESIGN 11.3, D5).
 -/
 namespace Car.C06
 open Car
@@ -111,6 +115,132 @@ theorem acked_intact_after_refusal (api : Api) (o : WOpts) (roots : Option (List
     simp [payload, sectionsBytes]
   rw [this, List.drop_left' (by simp), ← sectionBytes_length, List.take_left' rfl]
   simp
+
+
+/-- (5) Crash while the index is being written (header slot still zero) in a session with an **index
+    padding**: whatever part `X` of the index reached the disk, the scan of `Resume` walks the
+    acknowledged sections and then meets the zero padding. Without `ZeroLengthSectionAsEOF` it refuses
+    and leaves the payload window byte-for-byte; with it, it resumes with exactly the acknowledged
+    blocks indexed and the writer at the end of the payload. -/
+theorem crash_in_index_write_padded (api : Api) (o : WOpts) (roots : Option (List Cid)) (acked : List Block) (X : Bytes)
+    (hpad : 0 < o.indexPad)
+    (hwf : (CarHeader.mk roots 1).wf) (hmax : (encodeHeaderBody ⟨roots, 1⟩).length ≤ o.maxHeader)
+    (hmax32 : (encodeHeaderBody ⟨roots, 1⟩).length ≤ 32 * 2 ^ 20) (hlog : LogOK' acked) :
+    let image := o.filePrefix (zeros 40) ++ (payload roots acked ++ (zeros o.indexPad ++ X))
+    (o.zeroEOF = false → (∃ e, (resume api o roots image).res = .error e) ∧
+        (resume api o roots image).file.drop o.base = payload roots acked ++ (zeros o.indexPad ++ X)) ∧
+    (o.zeroEOF = true → ∃ s, (resume api o roots image).res = .ok s ∧ s.pos = (payload roots acked).length ∧
+        s.idx = insertAll [] (encodeHeader ⟨roots, 1⟩).length acked ∧ s.roots = roots ∧
+        s.file.drop o.base = payload roots acked ++ (zeros o.indexPad ++ X)) := by
+  intro image
+  obtain ⟨k, hk⟩ : ∃ k, o.indexPad = k + 1 := ⟨o.indexPad - 1, by omega⟩
+  have hz : zeros o.indexPad ++ X = (0 : UInt8) :: (zeros k ++ X) := by
+    rw [hk]; simp [zeros, List.replicate_succ]
+  have himg : image = o.filePrefix (zeros 40) ++
+      (encodeHeader ⟨roots, 1⟩ ++ (sectionsBytes acked ++ (zeros o.indexPad ++ X))) := by
+    simp [image, payload]
+  have hcore := resumeCore_unfinalized api o roots (sectionsBytes acked ++ (zeros o.indexPad ++ X)) hwf hmax hmax32
+  have hwin := payload_window_untouched o (encodeHeader ⟨roots, 1⟩ ++ (sectionsBytes acked ++ (zeros o.indexPad ++ X)))
+  have hfuel : (encodeHeader ⟨roots, 1⟩ ++ (sectionsBytes acked ++ (zeros o.indexPad ++ X))).length + 1
+      = ((encodeHeader ⟨roots, 1⟩).length + ((sectionsBytes acked).length - acked.length) + (zeros o.indexPad ++ X).length)
+          + 1 + acked.length := by
+    have := sectionsBytes_length_ge acked
+    simp only [List.length_append]; omega
+  have hscan := resumeLoop_sections_then_zero o.zeroEOF (encodeHeader ⟨roots, 1⟩) acked (zeros k ++ X) []
+    ((encodeHeader ⟨roots, 1⟩).length + ((sectionsBytes acked).length - acked.length) + (zeros o.indexPad ++ X).length) hlog
+  rw [← hz, List.append_assoc, ← hfuel] at hscan
+  refine ⟨fun hzf => ?_, fun hzt => ?_⟩
+  · rw [hzf] at hscan
+    refine ⟨⟨.zeroSection, ?_⟩, ?_⟩
+    · simp only [resume, himg, hcore, hzf, hscan]; rfl
+    · simp only [resume, himg, hcore]; rw [hwin]; simp [payload]
+  · rw [hzt] at hscan
+    simp only [↓reduceIte] at hscan
+    refine ⟨{ api := api, file := o.filePrefix (zeros 40) ++
+                (encodeHeader ⟨roots, 1⟩ ++ (sectionsBytes acked ++ (zeros o.indexPad ++ X))), base := o.base,
+              pos := (encodeHeader ⟨roots, 1⟩ ++ sectionsBytes acked).length,
+              idx := insertAll [] (encodeHeader ⟨roots, 1⟩).length acked, roots := roots }, ?_, ?_, ?_, ?_, ?_⟩
+    · simp only [resume, himg, hcore, hzt, hscan]
+    · simp [payload]
+    · rfl
+    · rfl
+    · have := o.filePrefix_length (zeros 40) (by simp [zeros])
+      show List.drop o.base (o.filePrefix (zeros 40) ++ _) = _
+      rw [List.drop_left' this]; simp [payload]
+
+/-- (6) Crash inside the final **header write**, once the DataSize field is complete (`32 ≤ j ≤ 40`
+    bytes of the 40 reached the zeroed slot; `j = 40` is the completed Finalize): `Resume` either refuses
+    without issuing any write, or does exactly what it does on the finalised file — cut the index off,
+    un-finalise the header, and return the store of exactly the acknowledged blocks (invariant `Inv`,
+    so the C04/C05 theorems apply to the continued session). The index bytes may be anything. -/
+theorem crash_in_final_header_write (api : Api) (o : WOpts) (roots : Option (List Cid)) (log : List Block)
+    (fi : Bool) (index : Bytes) (j : Nat) (hv2 : o.v1 = false)
+    (hwf : (CarHeader.mk roots 1).wf) (hmax : (encodeHeaderBody ⟨roots, 1⟩).length ≤ o.maxHeader)
+    (hmax32 : (encodeHeaderBody ⟨roots, 1⟩).length ≤ 32 * 2 ^ 20)
+    (lok : LayoutOK o.dataPad o.indexPad (payload roots log).length) (hlog : LogOK' log)
+    (h32 : 32 ≤ j) (hj : j ≤ 40) :
+    let H := finalHeader o.dataPad o.indexPad (payload roots log).length true fi
+    let image := pragma ++ (H.bytes.take j ++ zeros (40 - j)) ++
+        (zeros o.dataPad ++ (payload roots log ++ (zeros o.indexPad ++ index)))
+    ((∃ e, (resume api o roots image).res = .error e) ∧ (resume api o roots image).file = image) ∨
+    (∃ s, (resume api o roots image).res = .ok s ∧ Inv o roots s log ∧ s.closed = false ∧ s.finalized = false ∧
+        s.file = o.filePrefix (zeros 40) ++ payload roots log) := by
+  intro H image
+  have hp := payload_length_pos roots log
+  have hfin : pragma ++ H.bytes ++ (zeros o.dataPad ++ (payload roots log ++ (zeros o.indexPad ++ index)))
+      = layoutV2 o.dataPad o.indexPad (payload roots log) true fi index := by simp [layoutV2, H]
+  rcases torn_final_header_ge32 api o roots (payload roots log).length fi
+      (zeros o.dataPad ++ (payload roots log ++ (zeros o.indexPad ++ index))) j hv2 hp lok h32 hj with ⟨e, he⟩ | heq
+  · left
+    exact ⟨⟨e, by simp only [resume, image, H, he]⟩, by simp only [resume, image, H, he, applyWrites, List.foldl_nil]⟩
+  · right
+    have hcore := resumeCore_finalized_file api o roots log fi index hv2 hwf hmax hmax32 lok hlog
+    rw [← hfin] at hcore
+    have hres : resumeCore api o roots image = _ := heq.trans hcore
+    have hmut : applyWrites image ([.truncate (51 + o.dataPad + (payload roots log).length)] ++ headerEvs {})
+        = o.filePrefix (zeros 40) ++ payload roots log := by
+      have hpre : o.filePrefix (zeros 40) = pragma ++ zeros 40 ++ zeros o.dataPad := by simp [WOpts.filePrefix, hv2]
+      simp only [image]
+      rw [torn_header_ge32 H j h32 hj, resume_mutations_erase_header _ _ _ (by omega), hpre]
+      have : 51 + o.dataPad + (payload roots log).length - 51 = (zeros o.dataPad ++ payload roots log).length := by
+        simp [zeros_length]; omega
+      rw [this, ← List.append_assoc (zeros o.dataPad), truncate_prefix]; simp
+    refine ⟨{ api := api, file := o.filePrefix (zeros 40) ++ payload roots log, base := o.base,
+              pos := (payload roots log).length, idx := insertAll [] (headerSize ⟨roots, 1⟩) log, roots := roots },
+      by simp only [resume, hres], ?_, rfl, rfl, rfl⟩
+    refine ⟨rfl, ⟨zeros 40, [], by simp [zeros], by simp, fun _ _ => rfl⟩, rfl, ?_, rfl⟩
+    have := insertAll_perm [] (headerSize ⟨roots, 1⟩) log
+    simpa using this
+
+/-- (7) Crash inside the DataSize field of the final header write (`24 ≤ j ≤ 32`) with a non-zero part of
+    it on disk: the index offset is still zero, so the header is refused (the repaired D6 check) and
+    **nothing** is written — every acknowledged block stays where it was. -/
+theorem crash_in_final_header_datasize (api : Api) (o : WOpts) (roots : Option (List Cid)) (n : Nat) (fi : Bool)
+    (tail : Bytes) (j : Nat) (hv2 : o.v1 = false) (hn : 0 < n) (lok : LayoutOK o.dataPad o.indexPad n)
+    (h24 : 24 ≤ j) (hj : j ≤ 32) (hpart : n % 256 ^ (j - 24) ≠ 0) :
+    let image := pragma ++ ((finalHeader o.dataPad o.indexPad n true fi).bytes.take j ++ zeros (40 - j)) ++ tail
+    (∃ e, (resume api o roots image).res = .error e) ∧ (resume api o roots image).file = image := by
+  intro image
+  obtain ⟨e, he⟩ := torn_final_header_datasize api o roots n fi tail j hv2 hn lok h24 hj hpart
+  exact ⟨⟨e, by simp only [resume, image, he]⟩, by simp only [resume, image, he, applyWrites, List.foldl_nil]⟩
+
+/-- (8) The window of the recorded finding, delimited: as long as the DataSize field has not reached
+    the disk (`j ≤ 24` bytes of the header write, whatever the characteristics and DataOffset bytes are),
+    `Resume` cannot tell the image from an un-finalised file — it behaves exactly as on the all-zero
+    header slot, i.e. it scans whatever follows the payload. -/
+theorem crash_before_datasize_on_disk (api : Api) (o : WOpts) (roots : Option (List Cid)) (h : V2Header)
+    (tail : Bytes) (j : Nat) (hv2 : o.v1 = false) (hj : j ≤ 24) :
+    resumeCore api o roots (pragma ++ (h.bytes.take j ++ zeros (40 - j)) ++ tail)
+      = resumeCore api o roots (pragma ++ zeros 40 ++ tail) := by
+  obtain ⟨pre, hl, hpre⟩ := torn_header_le24 h j hj
+  obtain ⟨e, he⟩ := readV2Header_datasize_zero pre tail hl
+  rw [hpre]
+  exact resumeCore_unreadable_header api o roots (pre ++ zeros 16) tail hv2 (by simp [hl, zeros]) e
+    (by rw [List.append_assoc]; exact he)
+
+/-- Non-vacuity of (6)/(7): a concrete session, header cut at 37 and at 25 bytes. -/
+example : LayoutOK 0 0 60 ∧ (32 ≤ 37 ∧ 37 ≤ 40) ∧ (24 ≤ 25 ∧ 25 ≤ 32 ∧ 60 % 256 ^ (25 - 24) ≠ 0) := by
+  refine ⟨⟨by decide, by decide, by decide⟩, by decide, by decide⟩
 
 /-- Non-vacuity: the premises of `crash_inside_section` hold for a concrete block and cut. -/
 example : let b : Block := ⟨⟨1, 0x55, 0, [1, 2]⟩, [1, 2]⟩
